@@ -12,7 +12,7 @@ pub const META_C10: Meta = Meta {
     assumptions: &["reference interpreter; draw log from the hook for programs using random"],
     quick_cases: 150000,
     thorough_cases: 3000000,
-    floor: 500,
+    floor: 13000,
 };
 
 pub fn profile_hazard(r: &mut Prng) -> GenCfg {
@@ -165,7 +165,7 @@ pub const META_C17: Meta = Meta {
     ],
     quick_cases: 100000,
     thorough_cases: 2000000,
-    floor: 300,
+    floor: 2500,
 };
 
 pub fn profile_random() -> GenCfg {
